@@ -246,16 +246,34 @@ class Monitors:
 
 
 class FixedNow:
-    """Replace the name ``datetime`` in ctparse.ctparse by a subclass with a
-    fixed now() (used for the omitted-reference-time cases)."""
+    """Replace the name ``datetime`` in ctparse.ctparse by a subclass whose clock is fixed (used for the
+    omitted-reference-time cases).  The host is modelled as being ``utc_offset`` away from UTC: now()/today() give the
+    local wall time ``now``; now(tz), utcnow() give the same instant in that zone / in UTC -- so code that reads the clock
+    in UTC and drops the zone is NOT the current (local) time unless the offset is zero."""
 
-    def __init__(self, L, now):
+    def __init__(self, L, now, utc_offset=None):
         import datetime as _dt
+
+        off = utc_offset if utc_offset is not None else _dt.timedelta(0)
+        reads = self.reads = []
 
         class _DT(_dt.datetime):
             @classmethod
             def now(cls, tz=None):
+                reads.append("now(tz)" if tz is not None else "now()")
+                if tz is None:
+                    return now
+                return (now - off).replace(tzinfo=_dt.timezone.utc).astimezone(tz)
+
+            @classmethod
+            def today(cls):
+                reads.append("today()")
                 return now
+
+            @classmethod
+            def utcnow(cls):
+                reads.append("utcnow()")
+                return now - off
 
         self.p = Patches()
         self.p.set(L.m, "datetime", _DT)
